@@ -240,6 +240,8 @@ def run_model(lines, profile="release", timeout=900, shards=None):
 
 
 def run_impl(lines, profile="release", timeout=900, shards=None):
+    # a case that does not return within this limit is reported by the harness ("load timeout")
+    os.environ.setdefault("OBSERVE_CASE_TIMEOUT_MS", "8000")
     return run_parallel([harness_bin(profile)], lines, timeout, (), shards)
 
 
